@@ -899,6 +899,13 @@ func (pconf *Path) validate(
 	// Authentication (deprecated)
 
 	if deprecatedCredentialsMode {
+		// a user "any" with a password is not supported (the password would never be checked)
+		if (pconf.PublishPass != nil && *pconf.PublishPass != "" && (pconf.PublishUser == nil || *pconf.PublishUser == "" || *pconf.PublishUser == "any")) ||
+			(pconf.ReadPass != nil && *pconf.ReadPass != "" && (pconf.ReadUser == nil || *pconf.ReadUser == "" || *pconf.ReadUser == "any")) {
+			return fmt.Errorf("'publishPass' and 'readPass' need 'publishUser' and 'readUser': " +
+				"using a password with 'any' user is not supported")
+		}
+
 		func() {
 			var user Credential = "any"
 			if pconf.PublishUser != nil && *pconf.PublishUser != "" {
